@@ -121,6 +121,9 @@ INITIAL_DOCS = [
     "{a: [1, 2, {k1: x}], b: {0: zero, 1: {c: [true, null]}}, 7: seven}",
     "{a: !force {b: !del [1, [2, 3]], 12: txt}, k1: !weak 2.5, Z9: {x_y: {a: {}}}, b: []}",
     "{0: [[0], [1, [2]]], 1: !merge {a: 1}, x_y: !unsafe {k1: [a, b]}}",
+    # a tree merged from two documents, the second one using the list operators (the lists were grown by the merge machinery)
+    (["{a: [1, 2], b: {l: [x]}, c: [0, 5], 7: [s]}", "{a: !extend [3, [4]], b: {l: !append [y, {k1: z}]}, c: !merge [9], 7: !append [t]}"],
+     {'b': {'l': ['x', 'y', {'k1': 'z'}]}, 'c': [9, 5], 'a': [1, 2, 3, [4]], 7: ['s', 't']}),
 ]
 
 
@@ -131,6 +134,12 @@ def _initial(idx):
     text = INITIAL_DOCS[idx % len(INITIAL_DOCS)]
     if text is None:
         return ConfigDict({}), {}
+    if isinstance(text, tuple):
+        from awesomeyaml.builder import Builder
+        b = Builder()
+        for t in text[0]:
+            b.add_source(t, raw_yaml=True)
+        return b.build(), copy.deepcopy(text[1])
     import yaml as _pyyaml
     from awesomeyaml.builder import Builder
     b = Builder()
